@@ -111,21 +111,21 @@ Qed.
 (* ------------------------------------------------------------------ *)
 (** * 2. Facts about the generated guards *)
 
-Lemma g_merge_too_few_spec n : g_merge_too_few n = true <-> n < 2.
-Proof. unfold g_merge_too_few. apply Z.ltb_lt. Qed.
-Lemma g_eose_already_spec b : g_eose_already b = b.
+Lemma g_merge_too_few_spec n : h_merge_too_few n = true <-> n < 2.
+Proof. unfold h_merge_too_few. apply Z.ltb_lt. Qed.
+Lemma g_eose_already_spec b : h_eose_already b = b.
 Proof. reflexivity. Qed.
-Lemma g_eose_incomplete_spec b : g_eose_incomplete b = negb b.
+Lemma g_eose_incomplete_spec b : h_eose_incomplete b = negb b.
 Proof. reflexivity. Qed.
-Lemma g_event_unsendable_spec b : g_event_unsendable b = negb b.
+Lemma g_event_unsendable_spec b : h_event_unsendable b = negb b.
 Proof. reflexivity. Qed.
-Lemma g_ok_not_ready_spec b : g_ok_not_ready b = negb b.
+Lemma g_ok_not_ready_spec b : h_ok_not_ready b = negb b.
 Proof. reflexivity. Qed.
-Lemma g_count_not_ready_spec b : g_count_not_ready b = negb b.
+Lemma g_count_not_ready_spec b : h_count_not_ready b = negb b.
 Proof. reflexivity. Qed.
-Lemma g_ok_has_slot_spec {A} (l : list A) : g_ok_has_slot (zlen l) = negb (match l with [] => true | _ => false end).
+Lemma g_ok_has_slot_spec {A} (l : list A) : h_ok_has_slot (zlen l) = negb (match l with [] => true | _ => false end).
 Proof.
-  unfold g_ok_has_slot. destruct l as [|a l]; [reflexivity|].
+  unfold h_ok_has_slot. destruct l as [|a l]; [reflexivity|].
   assert (H : 0 < zlen (a :: l)) by (unfold zlen; simpl length; lia).
   simpl negb. apply Z.gtb_lt. lia.
 Qed.
@@ -135,57 +135,114 @@ Proof.
   assert (H : 0 < zlen (a :: l)) by (unfold zlen; simpl length; lia).
   apply Z.eqb_neq. lia.
 Qed.
-Lemma g_ok_setmsg_absent_spec {A} (l : list A) : g_ok_setmsg_absent (zlen l) = match l with [] => true | _ => false end.
+Lemma g_ok_setmsg_absent_spec {A} (l : list A) : h_ok_setmsg_absent (zlen l) = match l with [] => true | _ => false end.
 Proof. apply len_eq0_spec. Qed.
-Lemma g_ok_ready_absent_spec {A} (l : list A) : g_ok_ready_absent (zlen l) = match l with [] => true | _ => false end.
+Lemma g_ok_ready_absent_spec {A} (l : list A) : h_ok_ready_absent (zlen l) = match l with [] => true | _ => false end.
 Proof. apply len_eq0_spec. Qed.
-Lemma g_ok_msg_absent_spec {A} (l : list A) : g_ok_msg_absent (zlen l) = match l with [] => true | _ => false end.
+Lemma g_ok_msg_absent_spec {A} (l : list A) : h_ok_msg_absent (zlen l) = match l with [] => true | _ => false end.
 Proof. apply len_eq0_spec. Qed.
-Lemma g_ok_is_accepted_spec b : g_ok_is_accepted b = b.
+Lemma g_ok_is_accepted_spec b : h_ok_is_accepted b = b.
 Proof. reflexivity. Qed.
-Lemma g_ok_any_rejected_spec {A} (l : list A) : g_ok_any_rejected (zlen l) = negb (match l with [] => true | _ => false end).
+Lemma g_ok_any_rejected_spec {A} (l : list A) : h_ok_any_rejected (zlen l) = negb (match l with [] => true | _ => false end).
 Proof.
-  unfold g_ok_any_rejected. destruct l as [|a l]; [reflexivity|].
+  unfold h_ok_any_rejected. destruct l as [|a l]; [reflexivity|].
   assert (H : 0 < zlen (a :: l)) by (unfold zlen; simpl length; lia).
   simpl negb. apply Z.gtb_lt. lia.
 Qed.
-Lemma g_req_seteose_absent_spec {A} (l : list A) : g_req_seteose_absent (zlen l) = match l with [] => true | _ => false end.
+Lemma g_req_seteose_absent_spec {A} (l : list A) : h_req_seteose_absent (zlen l) = match l with [] => true | _ => false end.
 Proof. apply len_eq0_spec. Qed.
-Lemma g_req_alleose_missing_spec b : g_req_alleose_missing b = negb b.
+Lemma g_req_alleose_missing_spec b : h_req_alleose_missing b = negb b.
 Proof. reflexivity. Qed.
-Lemma g_req_alleose_delete_spec b : g_req_alleose_delete b = b.
+Lemma g_req_alleose_delete_spec b : h_req_alleose_delete b = b.
 Proof. reflexivity. Qed.
-Lemma g_ev_all_eose_spec b : g_ev_all_eose b = b.
+Lemma g_ev_all_eose_spec b : h_ev_all_eose b = b.
 Proof. reflexivity. Qed.
-Lemma g_ev_child_eose_spec b : g_ev_child_eose b = b.
+Lemma g_ev_child_eose_spec b : h_ev_child_eose b = b.
 Proof. reflexivity. Qed.
-Lemma g_ev_has_last_spec b : g_ev_has_last b = b.
+Lemma g_ev_has_last_spec b : h_ev_has_last b = b.
 Proof. reflexivity. Qed.
-Lemma g_ev_older_first_spec a b : g_ev_older_first (cmpZ a b) = (a <? b).
+Lemma g_ev_older_first_spec a b : h_ev_older_first (cmpZ a b) = (a <? b).
 Proof.
-  unfold g_ev_older_first, cmpZ, Z.ltb. destruct (a ?= b); reflexivity.
+  unfold h_ev_older_first, cmpZ, Z.ltb. destruct (a ?= b); reflexivity.
 Qed.
-Lemma g_ev_ts_decreased_spec a b : g_ev_ts_decreased (cmpZ a b) = (b <? a).
+Lemma g_ev_ts_decreased_spec a b : h_ev_ts_decreased (cmpZ a b) = (b <? a).
 Proof.
-  unfold g_ev_ts_decreased, cmpZ. rewrite (Z.ltb_antisym a b), Z.leb_compare.
+  unfold h_ev_ts_decreased, cmpZ. rewrite (Z.ltb_antisym a b), Z.leb_compare.
   destruct (a ?= b) eqn:E; reflexivity.
 Qed.
-Lemma g_ev_seen_reject_spec a b : g_ev_seen_reject a b = a || b.
+Lemma g_ev_seen_reject_spec a b : h_ev_seen_reject a b = a || b.
 Proof. reflexivity. Qed.
-Lemma g_ev_done_spec b : g_ev_done b = b.
+Lemma g_ev_done_spec b : h_ev_done b = b.
 Proof. reflexivity. Qed.
-Lemma g_ev_nomatch_spec b : g_ev_nomatch b = negb b.
+Lemma g_ev_nomatch_spec b : h_ev_nomatch b = negb b.
 Proof. reflexivity. Qed.
-Lemma g_cnt_set_absent_spec {A} (l : list A) : g_cnt_set_absent (zlen l) = match l with [] => true | _ => false end.
+Lemma g_cnt_set_absent_spec {A} (l : list A) : h_cnt_set_absent (zlen l) = match l with [] => true | _ => false end.
 Proof. apply len_eq0_spec. Qed.
-Lemma g_cnt_ready_absent_spec {A} (l : list A) : g_cnt_ready_absent (zlen l) = match l with [] => true | _ => false end.
+Lemma g_cnt_ready_absent_spec {A} (l : list A) : h_cnt_ready_absent (zlen l) = match l with [] => true | _ => false end.
 Proof. apply len_eq0_spec. Qed.
 
-Global Opaque g_merge_too_few g_eose_already g_eose_incomplete g_event_unsendable g_ok_not_ready
-  g_count_not_ready g_ok_has_slot g_ok_setmsg_absent g_ok_ready_absent g_ok_msg_absent g_ok_is_accepted
-  g_ok_any_rejected g_req_seteose_absent g_req_alleose_missing g_req_alleose_delete g_ev_all_eose
-  g_ev_child_eose g_ev_has_last g_ev_older_first g_ev_ts_decreased g_ev_seen_reject g_ev_done g_ev_nomatch
-  g_cnt_set_absent g_cnt_ready_absent.
+Global Opaque h_merge_too_few h_eose_already h_eose_incomplete h_event_unsendable h_ok_not_ready
+  h_count_not_ready h_ok_has_slot h_ok_setmsg_absent h_ok_ready_absent h_ok_msg_absent h_ok_is_accepted
+  h_ok_any_rejected h_req_seteose_absent h_req_alleose_missing h_req_alleose_delete h_ev_all_eose
+  h_ev_child_eose h_ev_has_last h_ev_older_first h_ev_ts_decreased h_ev_seen_reject h_ev_done h_ev_nomatch
+  h_cnt_set_absent h_cnt_ready_absent.
+
+
+(* ------------------------------------------------------------------ *)
+(** * 2a. Ties: the conditions regenerated from handler.go are the ones the
+      model was written for (one obligation per guard; an edit of the
+      condition, or its disappearance, breaks exactly that obligation) *)
+
+Lemma tie_merge_too_few : forall n, g_merge_too_few n = h_merge_too_few n.
+Proof. reflexivity. Qed.
+Lemma tie_eose_already : forall b, g_eose_already b = h_eose_already b.
+Proof. reflexivity. Qed.
+Lemma tie_eose_incomplete : forall b, g_eose_incomplete b = h_eose_incomplete b.
+Proof. reflexivity. Qed.
+Lemma tie_event_unsendable : forall b, g_event_unsendable b = h_event_unsendable b.
+Proof. reflexivity. Qed.
+Lemma tie_ok_not_ready : forall b, g_ok_not_ready b = h_ok_not_ready b.
+Proof. reflexivity. Qed.
+Lemma tie_count_not_ready : forall b, g_count_not_ready b = h_count_not_ready b.
+Proof. reflexivity. Qed.
+Lemma tie_ok_has_slot : forall n, g_ok_has_slot n = h_ok_has_slot n.
+Proof. reflexivity. Qed.
+Lemma tie_ok_setmsg_absent : forall n, g_ok_setmsg_absent n = h_ok_setmsg_absent n.
+Proof. reflexivity. Qed.
+Lemma tie_ok_ready_absent : forall n, g_ok_ready_absent n = h_ok_ready_absent n.
+Proof. reflexivity. Qed.
+Lemma tie_ok_msg_absent : forall n, g_ok_msg_absent n = h_ok_msg_absent n.
+Proof. reflexivity. Qed.
+Lemma tie_ok_is_accepted : forall b, g_ok_is_accepted b = h_ok_is_accepted b.
+Proof. reflexivity. Qed.
+Lemma tie_ok_any_rejected : forall n, g_ok_any_rejected n = h_ok_any_rejected n.
+Proof. reflexivity. Qed.
+Lemma tie_req_seteose_absent : forall n, g_req_seteose_absent n = h_req_seteose_absent n.
+Proof. reflexivity. Qed.
+Lemma tie_req_alleose_missing : forall b, g_req_alleose_missing b = h_req_alleose_missing b.
+Proof. reflexivity. Qed.
+Lemma tie_req_alleose_delete : forall b, g_req_alleose_delete b = h_req_alleose_delete b.
+Proof. reflexivity. Qed.
+Lemma tie_ev_all_eose : forall b, g_ev_all_eose b = h_ev_all_eose b.
+Proof. reflexivity. Qed.
+Lemma tie_ev_child_eose : forall b, g_ev_child_eose b = h_ev_child_eose b.
+Proof. reflexivity. Qed.
+Lemma tie_ev_has_last : forall b, g_ev_has_last b = h_ev_has_last b.
+Proof. reflexivity. Qed.
+Lemma tie_ev_older_first : forall n, g_ev_older_first n = h_ev_older_first n.
+Proof. reflexivity. Qed.
+Lemma tie_ev_ts_decreased : forall n, g_ev_ts_decreased n = h_ev_ts_decreased n.
+Proof. reflexivity. Qed.
+Lemma tie_ev_seen_reject : forall a b, g_ev_seen_reject a b = h_ev_seen_reject a b.
+Proof. reflexivity. Qed.
+Lemma tie_ev_done : forall b, g_ev_done b = h_ev_done b.
+Proof. reflexivity. Qed.
+Lemma tie_ev_nomatch : forall b, g_ev_nomatch b = h_ev_nomatch b.
+Proof. reflexivity. Qed.
+Lemma tie_cnt_set_absent : forall n, g_cnt_set_absent n = h_cnt_set_absent n.
+Proof. reflexivity. Qed.
+Lemma tie_cnt_ready_absent : forall n, g_cnt_ready_absent n = h_cnt_ready_absent n.
+Proof. reflexivity. Qed.
 
 (* ------------------------------------------------------------------ *)
 (** * 3. The REQ state of one subscription id as a small machine *)
@@ -686,7 +743,7 @@ Definition os_ok (n : nat) (o : ostate) : Prop := os_size o = n /\ slots_ok ok_i
 Definition ok_merge (msgs : list (option okm)) : option okm :=
   match ok_partition msgs with
   | None => None
-  | Some (oks, ngs) => if g_ok_any_rejected (zlen ngs) then join_oks ngs else join_oks oks
+  | Some (oks, ngs) => if h_ok_any_rejected (zlen ngs) then join_oks ngs else join_oks oks
   end.
 
 Lemma ok_partition_some xs :
@@ -712,7 +769,7 @@ Qed.
 
 Lemma os_try_set_ok n o id : os_ok n o -> os_ok n (os_try_set o id).
 Proof.
-  intros [Hn H]. unfold os_try_set. destruct (g_ok_has_slot _); [split; assumption|].
+  intros [Hn H]. unfold os_try_set. destruct (h_ok_has_slot _); [split; assumption|].
   split; [exact Hn|]. cbn [os_s]. apply slots_ok_set; [assumption | now rewrite repeat_length |].
   intros a Ha. exfalso. eapply In_repeat_None; eauto.
 Qed.
@@ -1605,7 +1662,8 @@ Proof.
   intros Hn Hs Hf Ht Hnr Ha Hl.
   assert (Hfs : Forall filter_wf [f]) by (constructor; [assumption | constructor]).
   destruct (pre_eose_inv n s sub [f] w Hn Hs Hfs Ht Hnr Ha) as [la [se [ms [Hm [_ [_ [_ [_ H]]]]]]]].
-  destruct ms as [|m [|m2 ms2]]; cbn in Hm; try discriminate. inversion Hm as [Em].
+  destruct ms as [|m [|m2 ms2]]; cbn in Hm; try discriminate.
+  assert (Em : lm_f m = f) by (now inversion Hm).
   destruct (H m eq_refl) as [_ H2]. apply H2. now rewrite Em.
 Qed.
 
@@ -1645,17 +1703,850 @@ Proof.
   intro H. exists i, m. split; [reflexivity|].
   destruct m as [sub|sub e|m|c|t|sub p t].
   - unfold send_eose in H. destruct (rs_all_eose (st_rs s) sub) as [r1 a1].
-    destruct (g_eose_already a1); [discriminate|].
+    destruct (h_eose_already a1); [discriminate|].
     destruct (rs_set_eose r1 sub i) as [r2|]; [|discriminate].
-    destruct (rs_all_eose r2 sub) as [r3 a2]. destruct (g_eose_incomplete a2); cbn in H; congruence.
+    destruct (rs_all_eose r2 sub) as [r3 a2]. destruct (h_eose_incomplete a2); cbn in H; congruence.
   - unfold send_event in H. destruct (rs_is_sendable (st_rs s) i sub e) as [[r' b]|]; [|discriminate].
-    destruct (g_event_unsendable b); cbn in H; congruence.
+    destruct (h_event_unsendable b); cbn in H; congruence.
   - unfold send_ok in H. destruct (os_set_msg (st_os s) i m) as [o1|]; [|discriminate].
-    destruct (g_ok_not_ready _); [discriminate|]. destruct (os_msg o1 (ok_id m)) as [r|]; [|discriminate].
+    destruct (h_ok_not_ready _); [discriminate|]. destruct (os_msg o1 (ok_id m)) as [r|]; [|discriminate].
     exists r. cbn in H. congruence.
   - unfold send_count in H. destruct (cs_set_msg (st_cs s) i c) as [c1|]; [|discriminate].
-    destruct (g_count_not_ready _); [discriminate|]. destruct (cs_msg c1 (c_sub c)) as [r|]; [|discriminate].
+    destruct (h_count_not_ready _); [discriminate|]. destruct (cs_msg c1 (c_sub c)) as [r|]; [|discriminate].
     exists r. cbn in H. congruence.
   - cbn in H. congruence.
   - cbn in H. congruence.
+Qed.
+
+(* ------------------------------------------------------------------ *)
+(** * 9. C09: one EVENT window *)
+
+Definition is_ok_in (id : str) (x : input) : bool :=
+  match x with Child _ (SOk m) => str_eqb (ok_id m) id | _ => false end.
+
+Lemma latest_ok_snoc id i w x : forall acc,
+  latest_ok id i (w ++ [x]) acc =
+  match x with
+  | Child j (SOk m) => if Nat.eqb j i && str_eqb (ok_id m) id then Some m else latest_ok id i w acc
+  | _ => latest_ok id i w acc
+  end.
+Proof.
+  induction w as [|y w IH]; intro acc.
+  - cbn. destruct x as [| | | |j [| |m| | |]]; reflexivity.
+  - cbn [app latest_ok]. destruct y as [| | | |j' [| |m'| | |]]; try apply IH.
+    destruct (Nat.eqb j' i && str_eqb (ok_id m') id); apply IH.
+Qed.
+
+Lemma latest_ok_key id i w : forall acc a,
+  latest_ok id i w acc = Some a -> acc = Some a \/ ok_id a = id.
+Proof.
+  induction w as [|y w IH]; intros acc a H; [now left|].
+  cbn [latest_ok] in H. destruct y as [| | | |j [| |m| | |]]; try (now apply IH).
+  destruct (Nat.eqb j i && str_eqb (ok_id m) id) eqn:E; [|now apply IH].
+  destruct (IH _ _ H) as [E1|E1]; [|now right]. inversion E1; subst. right.
+  apply andb_true_iff in E as [_ E]. now apply str_eqb_eq in E.
+Qed.
+
+Lemma ok_replies_snoc_other n id w x : is_ok_in id x = false -> ok_replies n id (w ++ [x]) = ok_replies n id w.
+Proof.
+  intro H. unfold ok_replies. apply map_ext. intro i. rewrite latest_ok_snoc.
+  destruct x as [| | | |j [| |m| | |]]; try reflexivity. cbn in H. rewrite H, andb_false_r. reflexivity.
+Qed.
+
+Lemma ok_replies_snoc_ok n w j m :
+  (j < n)%nat ->
+  upd_nth j (Some m) (ok_replies n (ok_id m) w) = Some (ok_replies n (ok_id m) (w ++ [Child j (SOk m)])).
+Proof.
+  intro Hj. unfold ok_replies. rewrite upd_nth_map_seq by assumption. f_equal.
+  apply map_ext. intro i. rewrite latest_ok_snoc, str_eqb_refl, andb_true_r. cbn [Nat.add].
+  rewrite (Nat.eqb_sym j i). reflexivity.
+Qed.
+
+Lemma ok_replies_nil n id : ok_replies n id [] = repeat None n.
+Proof.
+  unfold ok_replies. cbn [latest_ok]. generalize 0%nat.
+  induction n as [|n IH]; intro a; cbn; [reflexivity | now rewrite IH].
+Qed.
+
+Lemma all_replied_nil n id : (1 <= n)%nat -> all_replied n id [] = false.
+Proof. intro H. unfold all_replied. rewrite ok_replies_nil. destruct n; [lia | reflexivity]. Qed.
+
+Lemma ok_replies_length n id w : length (ok_replies n id w) = n.
+Proof. unfold ok_replies. now rewrite map_length, seq_length. Qed.
+
+Lemma latest_ok_mono id i w x acc : latest_ok id i w acc <> None -> latest_ok id i (w ++ [x]) acc <> None.
+Proof.
+  intro H. rewrite latest_ok_snoc. destruct x as [| | | |j [| |m| | |]]; try assumption.
+  destruct (Nat.eqb j i && str_eqb (ok_id m) id); [discriminate | assumption].
+Qed.
+
+Lemma existsb_isNone_map {A} (f : nat -> option A) l :
+  existsb isNone (List.map f l) = false <-> forall i, In i l -> f i <> None.
+Proof.
+  induction l as [|a l IH]; cbn; [split; [intros _ i [] | reflexivity]|].
+  rewrite orb_false_iff, IH. split.
+  - intros [H1 H2] i [<-|Hi]; [destruct (f a); [discriminate | discriminate] | now apply H2].
+  - intro H. split; [|intros i Hi; apply H; now right].
+    specialize (H a (or_introl eq_refl)). destruct (f a); [reflexivity | congruence].
+Qed.
+
+Lemma all_replied_mono n id w x : all_replied n id w = true -> all_replied n id (w ++ [x]) = true.
+Proof.
+  unfold all_replied, ok_replies. rewrite !negb_true_iff, !existsb_isNone_map.
+  intros H i Hi. apply latest_ok_mono. now apply H.
+Qed.
+
+Lemma all_replied_snoc_other n id w x : is_ok_in id x = false -> all_replied n id (w ++ [x]) = all_replied n id w.
+Proof. intro H. unfold all_replied. now rewrite ok_replies_snoc_other. Qed.
+
+(** the merged reply carries the key its slot vector is stored under *)
+Lemma ok_merge_key k l r :
+  ok_merge l = Some r -> (forall a, In (Some a) l -> ok_id a = k) -> ok_id r = k.
+Proof.
+  unfold ok_merge. intros H Hk.
+  assert (P : forall l oks ngs, ok_partition l = Some (oks, ngs) ->
+              forall a, In a oks \/ In a ngs -> In (Some a) l).
+  { clear. induction l as [|[x|] l IH]; cbn; intros oks ngs H a Ha; try discriminate.
+    - inversion H; subst. destruct Ha as [[]|[]].
+    - destruct (ok_partition l) as [[oks' ngs']|]; [|discriminate].
+      destruct (h_ok_is_accepted (ok_acc x)); inversion H; subst.
+      + destruct Ha as [[<-|Ha]|Ha]; [now left | right; eapply IH; eauto | right; eapply IH; eauto].
+      + destruct Ha as [Ha|[<-|Ha]]; [right; eapply IH; eauto | now left | right; eapply IH; eauto]. }
+  destruct (ok_partition l) as [[oks ngs]|] eqn:Ep; [|discriminate].
+  destruct (h_ok_any_rejected (zlen ngs)).
+  - destruct ngs as [|m0 ngs]; [discriminate|]. inversion H; subst. cbn. apply Hk.
+    apply (P l oks (m0 :: ngs) Ep). right. now left.
+  - destruct oks as [|m0 oks]; [discriminate|]. inversion H; subst. cbn. apply Hk.
+    apply (P l (m0 :: oks) ngs Ep). left. now left.
+Qed.
+
+Lemma w_put_full_In {A} (v : option (list (option A))) i a l' b :
+  snd (w_put v i a) = Some l' -> In (Some b) l' -> b = a \/ In (Some b) (vlist v).
+Proof.
+  unfold w_put. destruct v as [[|x l]|]; cbn [snd]; try discriminate.
+  destruct (upd_nth i (Some a) (x :: l)) as [l2|] eqn:Eu; [|discriminate].
+  destruct (existsb isNone l2); cbn [snd]; [discriminate|]. intros H Hin. inversion H; subst.
+  destruct (upd_nth_In _ _ _ _ _ Eu Hin) as [E|Hi]; [left; now inversion E | right; exact Hi].
+Qed.
+
+(** inputs that are neither EVENT [id] nor an OK for [id] leave [id]'s slots
+    alone and produce no OK for [id] *)
+Lemma os_frame n s x id :
+  state_ok n s -> input_ok n x -> is_cevent_of id x = false -> is_ok_in id x = false ->
+  assoc id (os_s (st_os (fst (merge_step s x)))) = assoc id (os_s (st_os s)) /\
+  is_ok_out id (snd (merge_step s x)) = false.
+Proof.
+  intros [Hd [Hr [Ho Hc]]] Hx Hce Hok. unfold merge_step. rewrite Hd.
+  destruct x as [s' fs|s'|id'|s'|i m]; cbn [fst snd with_rs with_os with_cs st_os]; try (split; reflexivity).
+  - cbn in Hce. apply str_eqb_neq in Hce. split; [|reflexivity].
+    unfold os_try_set. destruct (h_ok_has_slot _); [reflexivity|]. cbn [os_s]. now apply assoc_m_set_other.
+  - destruct m as [s'|s' e|m|c|t|s' p t]; cbn [input_ok] in Hx.
+    + destruct (send_eose_spec n s i s' Hr Hx) as [r' [E _]]. rewrite E. split; [reflexivity|].
+      cbn [snd]. destruct (snd (w_eose _ i)); reflexivity.
+    + destruct Hx as [Hi Hne]. destruct (send_event_spec n s i s' e Hr Hi Hne) as [r' [E _]]. rewrite E.
+      split; [reflexivity|]. cbn [snd]. destruct (snd (w_event _ i e)); reflexivity.
+    + cbn in Hok. apply str_eqb_neq in Hok.
+      destruct (send_ok_spec n s i m Ho Hx) as [o' [E [Ho' [Hf [Hs' Hfull]]]]]. rewrite E. cbn [fst snd with_os st_os].
+      split; [apply Hf; congruence|].
+      unfold out_ok. destruct (snd (w_put _ i m)) as [l'|] eqn:Ew; [|reflexivity].
+      destruct (ok_merge l') as [r|] eqn:Em; [|reflexivity]. cbn [option_map is_ok_out].
+      apply str_eqb_neq. intro Er. apply Hok. rewrite <- Er. symmetry.
+      apply (ok_merge_key (ok_id m) l' r Em). intros a Ha.
+      destruct (w_put_full_In _ _ _ _ _ Ew Ha) as [->|Hin]; [reflexivity|].
+      destruct (assoc (ok_id m) (os_s (st_os s))) as [l|] eqn:Ea; [|destruct Hin].
+      apply (proj2 (proj2 Ho _ _ Ea)). exact Hin.
+    + destruct (send_count_spec n s i c Hc Hx) as [c' [E _]]. rewrite E. split; [reflexivity|].
+      cbn [snd]. unfold out_cnt. destruct (snd (w_put _ i c)); [|reflexivity]. destruct (cnt_merge _); reflexivity.
+    + split; reflexivity.
+    + split; reflexivity.
+Qed.
+
+Lemma no_cevent_snoc id w x : no_cevent id (w ++ [x]) -> no_cevent id w /\ is_cevent_of id x = false.
+Proof.
+  intro H. split; [intros y Hy; apply H; apply in_or_app; now left | apply H; apply in_or_app; right; now left].
+Qed.
+
+Lemma final_snoc s w x : final s (w ++ [x]) = fst (merge_step (final s w) x).
+Proof. unfold final. rewrite exec_app. cbn [fst exec]. destruct (merge_step _ x); reflexivity. Qed.
+
+Lemma outs_snoc s w x : outs s (w ++ [x]) = outs s w ++ [snd (merge_step (final s w) x)].
+Proof. unfold outs, final. rewrite exec_app. cbn [snd exec]. destruct (merge_step _ x); reflexivity. Qed.
+
+(** the slot vector of [id] along an EVENT window, and the output of each step *)
+Lemma ok_window_inv n id s1 w :
+  (1 <= n)%nat -> state_ok n s1 -> assoc id (os_s (st_os s1)) = Some (repeat None n) ->
+  trace_ok n w -> no_cevent id w ->
+  assoc id (os_s (st_os (final s1 w))) = if all_replied n id w then None else Some (ok_replies n id w).
+Proof.
+  intros Hn Hs1 H0. induction w as [|x w IH] using rev_ind; intros Ht Hnc.
+  - rewrite (all_replied_nil n id Hn), ok_replies_nil. exact H0.
+  - destruct (trace_ok_snoc _ _ _ Ht) as [Ht1 Hx]. destruct (no_cevent_snoc _ _ _ Hnc) as [Hnc1 Hcx].
+    specialize (IH Ht1 Hnc1). rewrite final_snoc.
+    assert (Hs : state_ok n (final s1 w)) by now apply exec_ok.
+    destruct (is_ok_in id x) eqn:Eok.
+    2:{ destruct (os_frame n _ x id Hs Hx Hcx Eok) as [F _]. rewrite F, IH.
+        now rewrite (all_replied_snoc_other n id w x Eok), (ok_replies_snoc_other n id w x Eok). }
+    destruct x as [| | | |j [| |m| | |]]; try discriminate. cbn in Eok. apply str_eqb_eq in Eok. subst id.
+    cbn [input_ok] in Hx. destruct Hs as [Hd [Hr [Ho Hc]]].
+    destruct (send_ok_spec n (final s1 w) j m Ho Hx) as [o' [E [Ho' [Hf [Hs' Hfull]]]]].
+    unfold merge_step. rewrite Hd, E. cbn [fst with_os st_os]. rewrite Hs', IH.
+    destruct (all_replied n (ok_id m) w) eqn:Ea.
+    + now rewrite (all_replied_mono n (ok_id m) w _ Ea).
+    + unfold w_put.
+      assert (Hne : ok_replies n (ok_id m) w <> []).
+      { intro E0. pose proof (ok_replies_length n (ok_id m) w) as L. rewrite E0 in L. cbn in L. lia. }
+      destruct (ok_replies n (ok_id m) w) as [|y l] eqn:El; [congruence|]. rewrite <- El.
+      rewrite (ok_replies_snoc_ok n w j m Hx). unfold all_replied.
+      destruct (existsb isNone (ok_replies n (ok_id m) (w ++ [Child j (SOk m)]))); reflexivity.
+Qed.
+
+Lemma ok_window_out n id s1 w x :
+  (1 <= n)%nat -> state_ok n s1 -> assoc id (os_s (st_os s1)) = Some (repeat None n) ->
+  trace_ok n (w ++ [x]) -> no_cevent id (w ++ [x]) ->
+  if negb (all_replied n id w) && all_replied n id (w ++ [x])
+  then exists r, snd (merge_step (final s1 w) x) = Some (SOk r) /\ ok_id r = id /\
+                 ok_merge (ok_replies n id (w ++ [x])) = Some r
+  else is_ok_out id (snd (merge_step (final s1 w) x)) = false.
+Proof.
+  intros Hn Hs1 H0 Ht Hnc.
+  destruct (trace_ok_snoc _ _ _ Ht) as [Ht1 Hx]. destruct (no_cevent_snoc _ _ _ Hnc) as [Hnc1 Hcx].
+  pose proof (ok_window_inv n id s1 w Hn Hs1 H0 Ht1 Hnc1) as Hinv.
+  assert (Hs : state_ok n (final s1 w)) by now apply exec_ok.
+  destruct (is_ok_in id x) eqn:Eok.
+  2:{ destruct (os_frame n _ x id Hs Hx Hcx Eok) as [_ O].
+      rewrite (all_replied_snoc_other n id w x Eok). now rewrite andb_negb_l. }
+  destruct x as [| | | |j [| |m| | |]]; try discriminate. cbn in Eok. apply str_eqb_eq in Eok. subst id.
+  cbn [input_ok] in Hx. destruct Hs as [Hd [Hr [Ho Hc]]].
+  destruct (send_ok_spec n (final s1 w) j m Ho Hx) as [o' [E [Ho' [Hf [Hs' Hfull]]]]].
+  unfold merge_step. rewrite Hd, E. cbn [snd]. rewrite Hinv in *.
+  destruct (all_replied n (ok_id m) w) eqn:Ea; cbn [negb andb].
+  - reflexivity.
+  - assert (Hne : ok_replies n (ok_id m) w <> []).
+    { intro E0. pose proof (ok_replies_length n (ok_id m) w) as L. rewrite E0 in L. cbn in L. lia. }
+    assert (W : w_put (Some (ok_replies n (ok_id m) w)) j m =
+                if existsb isNone (ok_replies n (ok_id m) (w ++ [Child j (SOk m)]))
+                then (Some (ok_replies n (ok_id m) (w ++ [Child j (SOk m)])), None)
+                else (None, Some (ok_replies n (ok_id m) (w ++ [Child j (SOk m)])))).
+    { unfold w_put. destruct (ok_replies n (ok_id m) w) as [|y l] eqn:El; [congruence|]. rewrite <- El.
+      now rewrite (ok_replies_snoc_ok n w j m Hx). }
+    rewrite W in *. unfold all_replied.
+    destruct (existsb isNone (ok_replies n (ok_id m) (w ++ [Child j (SOk m)]))) eqn:Ex; cbn [negb snd out_ok] in *.
+    + reflexivity.
+    + destruct (Hfull _ eq_refl) as [r Er]. rewrite Er. cbn [option_map]. exists r. split; [reflexivity|].
+      split; [|reflexivity]. apply (ok_merge_key (ok_id m) _ r Er).
+      intros a Ha. unfold ok_replies in Ha. apply in_map_iff in Ha as [i [Hl _]].
+      destruct (latest_ok_key _ _ _ _ _ Hl) as [Hk|Hk]; [discriminate | exact Hk].
+Qed.
+
+Lemma filter_first {A} (p : A -> bool) l x rest :
+  filter p l = x :: rest ->
+  exists before after, l = before ++ x :: after /\ (forall b, In b before -> p b = false) /\ p x = true.
+Proof.
+  induction l as [|a l IH]; cbn; [discriminate|].
+  destruct (p a) eqn:E.
+  - intro H. inversion H; subst. exists [], l. repeat split; auto. intros b [].
+  - intro H. destruct (IH H) as [before [after [-> [Hb Hx]]]].
+    exists (a :: before), after. repeat split; auto. intros b [<-|Hin]; auto.
+Qed.
+
+Lemma filter_nil_all {A} (p : A -> bool) l : filter p l = [] -> forall x, In x l -> p x = false.
+Proof.
+  induction l as [|a l IH]; cbn; [intros _ x []|].
+  destruct (p a) eqn:E; [discriminate|]. intros H x [<-|Hin]; auto.
+Qed.
+
+(** the merged OK is what the property asks for *)
+Lemma ok_merge_verdict id xs r :
+  ok_merge (List.map Some xs) = Some r -> (forall a, In a xs -> ok_id a = id) -> ok_verdict_spec id xs r.
+Proof.
+  unfold ok_merge. rewrite ok_partition_some, g_ok_any_rejected_spec. intros H Hk.
+  destruct (filter (fun m => negb (ok_acc m)) xs) as [|ng ngs] eqn:En; cbn [negb] in H.
+  - pose proof (filter_nil_all _ _ En) as Hall. rewrite (filter_all_false _ _ En) in H.
+    destruct xs as [|m0 xs']; [discriminate|]. cbn in H. inversion H; subst r. clear H.
+    assert (Hacc : forall x, In x (m0 :: xs') -> ok_acc x = true).
+    { intros x Hx. specialize (Hall x Hx). now apply negb_false_iff in Hall. }
+    unfold ok_verdict_spec. cbn [ok_id ok_acc]. split; [apply Hk; now left|]. split.
+    + split; [intros _; exact Hacc | intros _; apply Hacc; now left].
+    + intro Hf. rewrite (Hacc m0 (or_introl eq_refl)) in Hf. discriminate.
+  - cbn in H. inversion H; subst r. clear H.
+    destruct (filter_first _ _ _ _ En) as [before [after [Exs [Hb Hng]]]].
+    apply negb_true_iff in Hng.
+    unfold ok_verdict_spec. cbn [ok_id ok_acc]. split; [apply Hk; rewrite Exs; apply in_or_app; right; now left|].
+    split.
+    + rewrite Hng. split; [discriminate|]. intro Hall.
+      rewrite <- (Hall ng), Hng; [reflexivity|]. rewrite Exs. apply in_or_app. right. now left.
+    + intros _. exists before, ng, after, (concat (List.map ok_message ngs)). split; [exact Exs|]. split.
+      * intros b Hin. specialize (Hb b Hin). now apply negb_false_iff in Hb.
+      * split; [exact Hng | reflexivity].
+Qed.
+
+Lemma after_cevent n s id :
+  state_ok n s -> assoc id (os_s (st_os s)) = None ->
+  state_ok n (fst (merge_step s (CEvent id))) /\
+  assoc id (os_s (st_os (fst (merge_step s (CEvent id))))) = Some (repeat None n).
+Proof.
+  intros Hs H0. split; [apply step_ok; [assumption | exact I]|].
+  destruct Hs as [Hd [_ [[Hn _] _]]]. unfold merge_step. rewrite Hd. cbn [fst with_os st_os].
+  unfold os_try_set. rewrite H0. cbn [vlist]. rewrite g_ok_has_slot_spec. cbn [negb os_s].
+  now rewrite assoc_m_set_same, Hn.
+Qed.
+
+Lemma outs_nth s w1 x w2 :
+  nth_error (outs s (w1 ++ x :: w2)) (length w1) = Some (snd (merge_step (final s w1) x)).
+Proof.
+  unfold outs, final. rewrite exec_app. cbn [snd]. rewrite exec_cons. cbn [snd].
+  rewrite <- (outs_length s w1). apply nth_error_mid.
+Qed.
+
+(** every EVENT is answered by exactly one OK carrying its id, once every
+    child has replied; none before *)
+Theorem ok_exactly_one n s id w :
+  (1 <= n)%nat -> state_ok n s -> assoc id (os_s (st_os s)) = None ->
+  trace_ok n w -> no_cevent id w ->
+  count_occ_b (is_ok_out id) (evt_outs s id w) = if all_replied n id w then 1%nat else 0%nat.
+Proof.
+  intros Hn Hs H0. destruct (after_cevent n s id Hs H0) as [Hs1 H1]. unfold evt_outs.
+  set (s1 := fst (merge_step s (CEvent id))) in *.
+  induction w as [|x w IH] using rev_ind; intros Ht Hnc.
+  - now rewrite (all_replied_nil n id Hn).
+  - destruct (trace_ok_snoc _ _ _ Ht) as [Ht1 Hx]. destruct (no_cevent_snoc _ _ _ Hnc) as [Hnc1 Hcx].
+    rewrite outs_snoc, count_occ_b_app, (IH Ht1 Hnc1). cbn [count_occ_b].
+    pose proof (ok_window_out n id s1 w x Hn Hs1 H1 Ht Hnc) as Ho.
+    destruct (all_replied n id w) eqn:Ea; cbn [negb andb] in Ho.
+    + rewrite Ho, (all_replied_mono n id w x Ea). reflexivity.
+    + destruct (all_replied n id (w ++ [x])).
+      * destruct Ho as [r [-> [Er _]]]. cbn [is_ok_out]. now rewrite Er, str_eqb_refl.
+      * now rewrite Ho.
+Qed.
+
+Lemma no_cevent_mid id a x b : no_cevent id (a ++ x :: b) -> no_cevent id (a ++ [x]).
+Proof.
+  intros H y Hy. apply H. apply in_app_or in Hy as [Hy|[<-|[]]]; apply in_or_app; [now left | right; now left].
+Qed.
+
+(** the OK is output at the step of the last child's reply; it is built from
+    the children's (latest) replies in child order: accepting iff every
+    child accepted, and a rejecting one begins with the text of the
+    lowest-numbered rejecting child *)
+Theorem ok_verdict n s id w1 x w2 r :
+  (1 <= n)%nat -> state_ok n s -> assoc id (os_s (st_os s)) = None ->
+  trace_ok n (w1 ++ x :: w2) -> no_cevent id (w1 ++ x :: w2) ->
+  nth_error (evt_outs s id (w1 ++ x :: w2)) (length w1) = Some (Some (SOk r)) -> ok_id r = id ->
+  all_replied n id w1 = false /\
+  exists replies, ok_replies n id (w1 ++ [x]) = List.map Some replies /\ length replies = n /\
+                  ok_verdict_spec id replies r.
+Proof.
+  intros Hn Hs H0 Ht Hnc Hnth Hid. destruct (after_cevent n s id Hs H0) as [Hs1 H1].
+  unfold evt_outs in Hnth. rewrite outs_nth in Hnth. inversion Hnth as [Hout]. clear Hnth.
+  pose proof (ok_window_out n id _ w1 x Hn Hs1 H1 (trace_ok_mid _ _ _ _ Ht) (no_cevent_mid _ _ _ _ Hnc)) as Ho.
+  destruct (all_replied n id w1) eqn:Ea; cbn [negb andb] in Ho.
+  { rewrite Hout in Ho. cbn in Ho. rewrite Hid, str_eqb_refl in Ho. discriminate. }
+  split; [reflexivity|].
+  destruct (all_replied n id (w1 ++ [x])) eqn:Ea'.
+  2:{ rewrite Hout in Ho. cbn in Ho. rewrite Hid, str_eqb_refl in Ho. discriminate. }
+  destruct Ho as [r' [Er' [_ Em]]]. rewrite Hout in Er'. inversion Er'; subst r'.
+  unfold all_replied in Ea'. apply negb_true_iff in Ea'.
+  destruct (full_vector _ Ea') as [xs Exs]. exists xs. split; [exact Exs|]. split.
+  - rewrite <- (map_length Some xs), <- Exs. apply ok_replies_length.
+  - apply ok_merge_verdict; [now rewrite <- Exs|].
+    intros a Ha. assert (Hin : In (Some a) (ok_replies n id (w1 ++ [x]))) by (rewrite Exs; now apply in_map).
+    unfold ok_replies in Hin. apply in_map_iff in Hin as [i [Hl _]].
+    destruct (latest_ok_key _ _ _ _ _ Hl) as [Hk|Hk]; [discriminate | exact Hk].
+Qed.
+
+(** a history without EVENT [id] never creates a slot for it *)
+Lemma no_cevent_slot_none n id w : forall s,
+  state_ok n s -> assoc id (os_s (st_os s)) = None -> trace_ok n w -> no_cevent id w ->
+  assoc id (os_s (st_os (final s w))) = None.
+Proof.
+  induction w as [|x w IH]; intros s Hs H0 Ht Hnc; [exact H0|].
+  inversion Ht as [|? ? Hx Ht']; subst. unfold final. rewrite exec_cons. cbn [fst].
+  apply IH; [now apply step_ok | | assumption | intros y Hy; apply Hnc; now right].
+  assert (Hcx : is_cevent_of id x = false) by (apply Hnc; now left).
+  destruct (is_ok_in id x) eqn:Eok.
+  2:{ destruct (os_frame n s x id Hs Hx Hcx Eok) as [F _]. now rewrite F. }
+  destruct x as [| | | |j [| |m| | |]]; try discriminate. cbn in Eok. apply str_eqb_eq in Eok. subst id.
+  cbn [input_ok] in Hx. destruct Hs as [Hd [Hr [Ho Hc]]].
+  destruct (send_ok_spec n s j m Ho Hx) as [o' [E [_ [_ [Hs' _]]]]].
+  unfold merge_step. rewrite Hd, E. cbn [fst with_os st_os]. rewrite Hs', H0. reflexivity.
+Qed.
+
+Lemma final_app s a b : final s (a ++ b) = final (final s a) b.
+Proof. unfold final. rewrite exec_app. reflexivity. Qed.
+
+Lemma final_cons s x t : final s (x :: t) = final (fst (merge_step s x)) t.
+Proof. unfold final. rewrite exec_cons. reflexivity. Qed.
+
+(** "no request with this id in flight", read off the history, means: the
+    model holds no slot vector for the id *)
+Theorem idle_ev_slot n id pre :
+  (1 <= n)%nat -> trace_ok n pre -> idle_ev n id pre ->
+  assoc id (os_s (st_os (final (init n) pre))) = None.
+Proof.
+  intros Hn Ht Hi. induction Hi as [pre Hnc | pre w Hi IH Hnc Ha].
+  - apply (no_cevent_slot_none n id pre); try assumption; [apply init_ok | reflexivity].
+  - destruct (trace_ok_app _ _ _ Ht) as [Ht1 Ht2]. inversion Ht2 as [|? ? _ Htw]; subst.
+    specialize (IH Ht1). rewrite final_app, final_cons.
+    assert (Hs : state_ok n (final (init n) pre)) by (apply exec_ok; [apply init_ok | assumption]).
+    destruct (after_cevent n _ id Hs IH) as [Hs1 H1].
+    rewrite (ok_window_inv n id _ w Hn Hs1 H1 Htw Hnc), Ha. reflexivity.
+Qed.
+
+(* ------------------------------------------------------------------ *)
+(** * 10. C09: one COUNT window *)
+
+Definition is_cnt_in (sub : str) (x : input) : bool :=
+  match x with Child _ (SCount m) => str_eqb (c_sub m) sub | _ => false end.
+
+Lemma latest_cnt_snoc sub i w x : forall acc,
+  latest_cnt sub i (w ++ [x]) acc =
+  match x with
+  | Child j (SCount m) => if Nat.eqb j i && str_eqb (c_sub m) sub then Some m else latest_cnt sub i w acc
+  | _ => latest_cnt sub i w acc
+  end.
+Proof.
+  induction w as [|y w IH]; intro acc.
+  - cbn. destruct x as [| | | |j [| | |m| |]]; reflexivity.
+  - cbn [app latest_cnt]. destruct y as [| | | |j' [| | |m'| |]]; try apply IH.
+    destruct (Nat.eqb j' i && str_eqb (c_sub m') sub); apply IH.
+Qed.
+
+Lemma latest_cnt_key sub i w : forall acc a,
+  latest_cnt sub i w acc = Some a -> acc = Some a \/ c_sub a = sub.
+Proof.
+  induction w as [|y w IH]; intros acc a H; [now left|].
+  cbn [latest_cnt] in H. destruct y as [| | | |j [| | |m| |]]; try (now apply IH).
+  destruct (Nat.eqb j i && str_eqb (c_sub m) sub) eqn:E; [|now apply IH].
+  destruct (IH _ _ H) as [E1|E1]; [|now right]. inversion E1; subst. right.
+  apply andb_true_iff in E as [_ E]. now apply str_eqb_eq in E.
+Qed.
+
+Lemma cnt_replies_snoc_other n sub w x : is_cnt_in sub x = false -> cnt_replies n sub (w ++ [x]) = cnt_replies n sub w.
+Proof.
+  intro H. unfold cnt_replies. apply map_ext. intro i. rewrite latest_cnt_snoc.
+  destruct x as [| | | |j [| | |m| |]]; try reflexivity. cbn in H. rewrite H, andb_false_r. reflexivity.
+Qed.
+
+Lemma cnt_replies_snoc_cnt n w j m :
+  (j < n)%nat ->
+  upd_nth j (Some m) (cnt_replies n (c_sub m) w) = Some (cnt_replies n (c_sub m) (w ++ [Child j (SCount m)])).
+Proof.
+  intro Hj. unfold cnt_replies. rewrite upd_nth_map_seq by assumption. f_equal.
+  apply map_ext. intro i. rewrite latest_cnt_snoc, str_eqb_refl, andb_true_r. cbn [Nat.add].
+  rewrite (Nat.eqb_sym j i). reflexivity.
+Qed.
+
+Lemma cnt_replies_nil n sub : cnt_replies n sub [] = repeat None n.
+Proof.
+  unfold cnt_replies. cbn [latest_cnt]. generalize 0%nat.
+  induction n as [|n IH]; intro a; cbn; [reflexivity | now rewrite IH].
+Qed.
+
+Lemma all_counted_nil n sub : (1 <= n)%nat -> all_counted n sub [] = false.
+Proof. intro H. unfold all_counted. rewrite cnt_replies_nil. destruct n; [lia | reflexivity]. Qed.
+
+Lemma cnt_replies_length n sub w : length (cnt_replies n sub w) = n.
+Proof. unfold cnt_replies. now rewrite map_length, seq_length. Qed.
+
+Lemma latest_cnt_mono sub i w x acc : latest_cnt sub i w acc <> None -> latest_cnt sub i (w ++ [x]) acc <> None.
+Proof.
+  intro H. rewrite latest_cnt_snoc. destruct x as [| | | |j [| | |m| |]]; try assumption.
+  destruct (Nat.eqb j i && str_eqb (c_sub m) sub); [discriminate | assumption].
+Qed.
+
+Lemma all_counted_mono n sub w x : all_counted n sub w = true -> all_counted n sub (w ++ [x]) = true.
+Proof.
+  unfold all_counted, cnt_replies. rewrite !negb_true_iff, !existsb_isNone_map.
+  intros H i Hi. apply latest_cnt_mono. now apply H.
+Qed.
+
+Lemma all_counted_snoc_other n sub w x : is_cnt_in sub x = false -> all_counted n sub (w ++ [x]) = all_counted n sub w.
+Proof. intro H. unfold all_counted. now rewrite cnt_replies_snoc_other. Qed.
+
+Lemma first_max_spec l : forall m,
+  In (first_max m l) (m :: l) /\ forall x, In x (m :: l) -> c_count x <= c_count (first_max m l).
+Proof.
+  induction l as [|a l IH]; intro m; cbn [first_max].
+  - split; [now left | intros x [<-|[]]; lia].
+  - destruct (c_count a >? c_count m) eqn:E.
+    + apply Z.gtb_lt in E. destruct (IH a) as [H1 H2]. split.
+      * right. exact H1.
+      * intros x [<-|Hx]; [|now apply H2]. specialize (H2 a (or_introl eq_refl)). lia.
+    + assert (c_count a <= c_count m) by (destruct (Z.gtb_spec (c_count a) (c_count m)); [discriminate | lia]).
+      destruct (IH m) as [H1 H2]. split.
+      * destruct H1 as [H1|H1]; [now left | right; now right].
+      * intros x [<-|[<-|Hx]]; [apply H2; now left | specialize (H2 m (or_introl eq_refl)); lia | apply H2; now right].
+Qed.
+
+(** ... and it is the first of the maximal ones *)
+Lemma first_max_first l : forall m,
+  exists before after, m :: l = before ++ first_max m l :: after /\
+                       forall b, In b before -> c_count b < c_count (first_max m l).
+Proof.
+  induction l as [|a l IH]; intro m; cbn [first_max].
+  - exists [], []. split; [reflexivity | intros b []].
+  - destruct (c_count a >? c_count m) eqn:E.
+    + apply Z.gtb_lt in E. destruct (IH a) as [before [after [Eq Hb]]].
+      exists (m :: before), after. split; [cbn [app]; now rewrite <- Eq|].
+      intros b [<-|Hin]; [|now apply Hb].
+      destruct (first_max_spec l a) as [_ H2]. specialize (H2 a (or_introl eq_refl)). lia.
+    + assert (Ha : c_count a <= c_count m) by (destruct (Z.gtb_spec (c_count a) (c_count m)); [discriminate | lia]).
+      destruct (IH m) as [before [after [Eq Hb]]].
+      destruct before as [|b0 before]; cbn [app] in Eq; injection Eq as Em El.
+      * exists [], (a :: l). split; [cbn [app]; now rewrite <- Em | intros b []].
+      * subst b0. exists (m :: a :: before), after. split; [cbn [app]; now rewrite <- El|].
+        intros b [<-|[<-|Hin]].
+        -- apply Hb. now left.
+        -- specialize (Hb m (or_introl eq_refl)). lia.
+        -- apply Hb. now right.
+Qed.
+
+Lemma cnt_merge_max sub xs r :
+  cnt_merge (List.map Some xs) = Some r -> (forall a, In a xs -> c_sub a = sub) -> count_max_spec sub xs r.
+Proof.
+  unfold cnt_merge. rewrite all_some_map. destruct xs as [|m l]; [discriminate|]. intros H Hk.
+  inversion H; subst r. destruct (first_max_spec l m) as [H1 H2].
+  unfold count_max_spec. split; [now apply Hk|]. split; assumption.
+Qed.
+
+Lemma cnt_merge_key k l r :
+  cnt_merge l = Some r -> (forall a, In (Some a) l -> c_sub a = k) -> c_sub r = k.
+Proof.
+  unfold cnt_merge. intros H Hk. destruct (all_some l) as [xs|] eqn:Ea; [|discriminate].
+  assert (El : l = List.map Some xs).
+  { clear - Ea. revert xs Ea. induction l as [|[x|] l IH]; cbn; intros xs Ea; try discriminate.
+    - now inversion Ea.
+    - destruct (all_some l) as [r'|]; [|discriminate]. inversion Ea; subst. cbn. f_equal. now apply IH. }
+  destruct xs as [|m xs']; [discriminate|]. inversion H; subst r.
+  apply Hk. rewrite El. apply in_map. apply (proj1 (first_max_spec xs' m)).
+Qed.
+
+Lemma cs_frame n s x sub :
+  state_ok n s -> input_ok n x -> is_ccount_of sub x = false -> is_cnt_in sub x = false ->
+  assoc sub (cs_counts (st_cs (fst (merge_step s x)))) = assoc sub (cs_counts (st_cs s)) /\
+  is_count_out sub (snd (merge_step s x)) = false.
+Proof.
+  intros [Hd [Hr [Ho Hc]]] Hx Hce Hok. unfold merge_step. rewrite Hd.
+  destruct x as [s' fs|s'|id'|s'|i m]; cbn [fst snd with_rs with_os with_cs st_cs]; try (split; reflexivity).
+  - cbn in Hce. apply str_eqb_neq in Hce. split; [|reflexivity].
+    cbn [cs_set_sub cs_counts]. now apply assoc_m_set_other.
+  - destruct m as [s'|s' e|m|c|t|s' p t]; cbn [input_ok] in Hx.
+    + destruct (send_eose_spec n s i s' Hr Hx) as [r' [E _]]. rewrite E. split; [reflexivity|].
+      cbn [snd]. destruct (snd (w_eose _ i)); reflexivity.
+    + destruct Hx as [Hi Hne]. destruct (send_event_spec n s i s' e Hr Hi Hne) as [r' [E _]]. rewrite E.
+      split; [reflexivity|]. cbn [snd]. destruct (snd (w_event _ i e)); reflexivity.
+    + destruct (send_ok_spec n s i m Ho Hx) as [o' [E _]]. rewrite E. split; [reflexivity|].
+      cbn [snd]. unfold out_ok. destruct (snd (w_put _ i m)); [|reflexivity]. destruct (ok_merge _); reflexivity.
+    + cbn in Hok. apply str_eqb_neq in Hok.
+      destruct (send_count_spec n s i c Hc Hx) as [c' [E [Hc' [Hf [Hs' Hfull]]]]]. rewrite E. cbn [fst snd with_cs st_cs].
+      split; [apply Hf; congruence|].
+      unfold out_cnt. destruct (snd (w_put _ i c)) as [l'|] eqn:Ew; [|reflexivity].
+      destruct (cnt_merge l') as [r|] eqn:Em; [|reflexivity]. cbn [option_map is_count_out].
+      apply str_eqb_neq. intro Er. apply Hok. rewrite <- Er. symmetry.
+      apply (cnt_merge_key (c_sub c) l' r Em). intros a Ha.
+      destruct (w_put_full_In _ _ _ _ _ Ew Ha) as [->|Hin]; [reflexivity|].
+      destruct (assoc (c_sub c) (cs_counts (st_cs s))) as [l|] eqn:Ea; [|destruct Hin].
+      apply (proj2 (proj2 Hc _ _ Ea)). exact Hin.
+    + split; reflexivity.
+    + split; reflexivity.
+Qed.
+
+Lemma no_ccount_snoc sub w x : no_ccount sub (w ++ [x]) -> no_ccount sub w /\ is_ccount_of sub x = false.
+Proof.
+  intro H. split; [intros y Hy; apply H; apply in_or_app; now left | apply H; apply in_or_app; right; now left].
+Qed.
+
+Lemma cnt_window_inv n sub s1 w :
+  (1 <= n)%nat -> state_ok n s1 -> assoc sub (cs_counts (st_cs s1)) = Some (repeat None n) ->
+  trace_ok n w -> no_ccount sub w ->
+  assoc sub (cs_counts (st_cs (final s1 w))) = if all_counted n sub w then None else Some (cnt_replies n sub w).
+Proof.
+  intros Hn Hs1 H0. induction w as [|x w IH] using rev_ind; intros Ht Hnc.
+  - rewrite (all_counted_nil n sub Hn), cnt_replies_nil. exact H0.
+  - destruct (trace_ok_snoc _ _ _ Ht) as [Ht1 Hx]. destruct (no_ccount_snoc _ _ _ Hnc) as [Hnc1 Hcx].
+    specialize (IH Ht1 Hnc1). rewrite final_snoc.
+    assert (Hs : state_ok n (final s1 w)) by now apply exec_ok.
+    destruct (is_cnt_in sub x) eqn:Eok.
+    2:{ destruct (cs_frame n _ x sub Hs Hx Hcx Eok) as [F _]. rewrite F, IH.
+        now rewrite (all_counted_snoc_other n sub w x Eok), (cnt_replies_snoc_other n sub w x Eok). }
+    destruct x as [| | | |j [| | |m| |]]; try discriminate. cbn in Eok. apply str_eqb_eq in Eok. subst sub.
+    cbn [input_ok] in Hx. destruct Hs as [Hd [Hr [Ho Hc]]].
+    destruct (send_count_spec n (final s1 w) j m Hc Hx) as [o' [E [Ho' [Hf [Hs' Hfull]]]]].
+    unfold merge_step. rewrite Hd, E. cbn [fst with_cs st_cs]. rewrite Hs', IH.
+    destruct (all_counted n (c_sub m) w) eqn:Ea.
+    + now rewrite (all_counted_mono n (c_sub m) w _ Ea).
+    + unfold w_put.
+      assert (Hne : cnt_replies n (c_sub m) w <> []).
+      { intro E0. pose proof (cnt_replies_length n (c_sub m) w) as L. rewrite E0 in L. cbn in L. lia. }
+      destruct (cnt_replies n (c_sub m) w) as [|y l] eqn:El; [congruence|]. rewrite <- El.
+      rewrite (cnt_replies_snoc_cnt n w j m Hx). unfold all_counted.
+      destruct (existsb isNone (cnt_replies n (c_sub m) (w ++ [Child j (SCount m)]))); reflexivity.
+Qed.
+
+Lemma cnt_window_out n sub s1 w x :
+  (1 <= n)%nat -> state_ok n s1 -> assoc sub (cs_counts (st_cs s1)) = Some (repeat None n) ->
+  trace_ok n (w ++ [x]) -> no_ccount sub (w ++ [x]) ->
+  if negb (all_counted n sub w) && all_counted n sub (w ++ [x])
+  then exists r, snd (merge_step (final s1 w) x) = Some (SCount r) /\ c_sub r = sub /\
+                 cnt_merge (cnt_replies n sub (w ++ [x])) = Some r
+  else is_count_out sub (snd (merge_step (final s1 w) x)) = false.
+Proof.
+  intros Hn Hs1 H0 Ht Hnc.
+  destruct (trace_ok_snoc _ _ _ Ht) as [Ht1 Hx]. destruct (no_ccount_snoc _ _ _ Hnc) as [Hnc1 Hcx].
+  pose proof (cnt_window_inv n sub s1 w Hn Hs1 H0 Ht1 Hnc1) as Hinv.
+  assert (Hs : state_ok n (final s1 w)) by now apply exec_ok.
+  destruct (is_cnt_in sub x) eqn:Eok.
+  2:{ destruct (cs_frame n _ x sub Hs Hx Hcx Eok) as [_ O].
+      rewrite (all_counted_snoc_other n sub w x Eok). now rewrite andb_negb_l. }
+  destruct x as [| | | |j [| | |m| |]]; try discriminate. cbn in Eok. apply str_eqb_eq in Eok. subst sub.
+  cbn [input_ok] in Hx. destruct Hs as [Hd [Hr [Ho Hc]]].
+  destruct (send_count_spec n (final s1 w) j m Hc Hx) as [o' [E [Ho' [Hf [Hs' Hfull]]]]].
+  unfold merge_step. rewrite Hd, E. cbn [snd]. rewrite Hinv in *.
+  destruct (all_counted n (c_sub m) w) eqn:Ea; cbn [negb andb].
+  - reflexivity.
+  - assert (Hne : cnt_replies n (c_sub m) w <> []).
+    { intro E0. pose proof (cnt_replies_length n (c_sub m) w) as L. rewrite E0 in L. cbn in L. lia. }
+    assert (W : w_put (Some (cnt_replies n (c_sub m) w)) j m =
+                if existsb isNone (cnt_replies n (c_sub m) (w ++ [Child j (SCount m)]))
+                then (Some (cnt_replies n (c_sub m) (w ++ [Child j (SCount m)])), None)
+                else (None, Some (cnt_replies n (c_sub m) (w ++ [Child j (SCount m)])))).
+    { unfold w_put. destruct (cnt_replies n (c_sub m) w) as [|y l] eqn:El; [congruence|]. rewrite <- El.
+      now rewrite (cnt_replies_snoc_cnt n w j m Hx). }
+    rewrite W in *. unfold all_counted.
+    destruct (existsb isNone (cnt_replies n (c_sub m) (w ++ [Child j (SCount m)]))) eqn:Ex; cbn [negb snd out_cnt] in *.
+    + reflexivity.
+    + destruct (Hfull _ eq_refl) as [r Er]. rewrite Er. cbn [option_map]. exists r. split; [reflexivity|].
+      split; [|reflexivity]. apply (cnt_merge_key (c_sub m) _ r Er).
+      intros a Ha. unfold cnt_replies in Ha. apply in_map_iff in Ha as [i [Hl _]].
+      destruct (latest_cnt_key _ _ _ _ _ Hl) as [Hk|Hk]; [discriminate | exact Hk].
+Qed.
+
+Lemma after_ccount n s sub :
+  state_ok n s ->
+  state_ok n (fst (merge_step s (CCount sub))) /\
+  assoc sub (cs_counts (st_cs (fst (merge_step s (CCount sub))))) = Some (repeat None n).
+Proof.
+  intros Hs. split; [apply step_ok; [assumption | exact I]|].
+  destruct Hs as [Hd [_ [_ [Hn _]]]]. unfold merge_step. rewrite Hd. cbn [fst with_cs st_cs cs_set_sub cs_counts].
+  now rewrite assoc_m_set_same, Hn.
+Qed.
+
+(** every COUNT is answered by exactly one COUNT reply, once every child has
+    replied; none before *)
+Theorem count_exactly_one n s sub w :
+  (1 <= n)%nat -> state_ok n s -> trace_ok n w -> no_ccount sub w ->
+  count_occ_b (is_count_out sub) (cnt_outs s sub w) = if all_counted n sub w then 1%nat else 0%nat.
+Proof.
+  intros Hn Hs. destruct (after_ccount n s sub Hs) as [Hs1 H1]. unfold cnt_outs.
+  set (s1 := fst (merge_step s (CCount sub))) in *.
+  induction w as [|x w IH] using rev_ind; intros Ht Hnc.
+  - now rewrite (all_counted_nil n sub Hn).
+  - destruct (trace_ok_snoc _ _ _ Ht) as [Ht1 Hx]. destruct (no_ccount_snoc _ _ _ Hnc) as [Hnc1 Hcx].
+    rewrite outs_snoc, count_occ_b_app, (IH Ht1 Hnc1). cbn [count_occ_b].
+    pose proof (cnt_window_out n sub s1 w x Hn Hs1 H1 Ht Hnc) as Ho.
+    destruct (all_counted n sub w) eqn:Ea; cbn [negb andb] in Ho.
+    + rewrite Ho, (all_counted_mono n sub w x Ea). reflexivity.
+    + destruct (all_counted n sub (w ++ [x])).
+      * destruct Ho as [r [-> [Er _]]]. cbn [is_count_out]. now rewrite Er, str_eqb_refl.
+      * now rewrite Ho.
+Qed.
+
+Lemma no_ccount_mid sub a x b : no_ccount sub (a ++ x :: b) -> no_ccount sub (a ++ [x]).
+Proof.
+  intros H y Hy. apply H. apply in_app_or in Hy as [Hy|[<-|[]]]; apply in_or_app; [now left | right; now left].
+Qed.
+
+(** the reply is output at the step of the last child's reply and is one of
+    the children's replies with the maximal count *)
+Theorem count_is_max n s sub w1 x w2 r :
+  (1 <= n)%nat -> state_ok n s ->
+  trace_ok n (w1 ++ x :: w2) -> no_ccount sub (w1 ++ x :: w2) ->
+  nth_error (cnt_outs s sub (w1 ++ x :: w2)) (length w1) = Some (Some (SCount r)) -> c_sub r = sub ->
+  all_counted n sub w1 = false /\
+  exists replies, cnt_replies n sub (w1 ++ [x]) = List.map Some replies /\ length replies = n /\
+                  count_max_spec sub replies r.
+Proof.
+  intros Hn Hs Ht Hnc Hnth Hid. destruct (after_ccount n s sub Hs) as [Hs1 H1].
+  unfold cnt_outs in Hnth. rewrite outs_nth in Hnth. inversion Hnth as [Hout]. clear Hnth.
+  pose proof (cnt_window_out n sub _ w1 x Hn Hs1 H1 (trace_ok_mid _ _ _ _ Ht) (no_ccount_mid _ _ _ _ Hnc)) as Ho.
+  destruct (all_counted n sub w1) eqn:Ea; cbn [negb andb] in Ho.
+  { rewrite Hout in Ho. cbn in Ho. rewrite Hid, str_eqb_refl in Ho. discriminate. }
+  split; [reflexivity|].
+  destruct (all_counted n sub (w1 ++ [x])) eqn:Ea'.
+  2:{ rewrite Hout in Ho. cbn in Ho. rewrite Hid, str_eqb_refl in Ho. discriminate. }
+  destruct Ho as [r' [Er' [_ Em]]]. rewrite Hout in Er'. inversion Er'; subst r'.
+  unfold all_counted in Ea'. apply negb_true_iff in Ea'.
+  destruct (full_vector _ Ea') as [xs Exs]. exists xs. split; [exact Exs|]. split.
+  - rewrite <- (map_length Some xs), <- Exs. apply cnt_replies_length.
+  - apply cnt_merge_max; [now rewrite <- Exs|].
+    intros a Ha. assert (Hin : In (Some a) (cnt_replies n sub (w1 ++ [x]))) by (rewrite Exs; now apply in_map).
+    unfold cnt_replies in Hin. apply in_map_iff in Hin as [i [Hl _]].
+    destruct (latest_cnt_key _ _ _ _ _ Hl) as [Hk|Hk]; [discriminate | exact Hk].
+Qed.
+
+(* ------------------------------------------------------------------ *)
+(** * 11. The same, for every state a session can reach *)
+
+Lemma reach_ok n pre : trace_ok n pre -> state_ok n (final (init n) pre).
+Proof. intro H. apply exec_ok; [apply init_ok | exact H]. Qed.
+
+Lemma trace_ok_window n pre x w : trace_ok n (pre ++ x :: w) -> trace_ok n pre /\ input_ok n x /\ trace_ok n w.
+Proof. intro H. apply Forall_app in H as [H1 H2]. inversion H2; subst. auto. Qed.
+
+(** the window is the tail of the session's output *)
+Lemma outs_window n pre x w :
+  outs (init n) (pre ++ x :: w) =
+  outs (init n) pre ++ snd (merge_step (final (init n) pre) x) :: outs (fst (merge_step (final (init n) pre) x)) w.
+Proof. unfold outs, final. rewrite exec_app. cbn [snd]. now rewrite exec_cons. Qed.
+
+Lemma ge2_ge1 n : (2 <= n)%nat -> (1 <= n)%nat.
+Proof. lia. Qed.
+
+Lemma wf_trace_ok n t : wf_trace n t -> trace_ok n t.
+Proof. now intros [H _]. Qed.
+
+Lemma trace_ok_prefix n a b : trace_ok n (a ++ b) -> trace_ok n a.
+Proof. intro H. now apply Forall_app in H. Qed.
+
+(* ------------------------------------------------------------------ *)
+(** * 12. C09 for reachable states, under the guard [no_overlap] *)
+
+Lemma trace_ok_split n pre x w rest :
+  trace_ok n (pre ++ x :: w ++ rest) -> trace_ok n pre /\ trace_ok n w.
+Proof.
+  intro H. apply Forall_app in H as [H1 H2]. inversion H2 as [|? ? _ H3]; subst.
+  apply Forall_app in H3 as [H3 _]. auto.
+Qed.
+
+Theorem ok_exactly_one_reach n t pre id w rest :
+  (2 <= n)%nat -> trace_ok n t -> no_overlap n t -> t = pre ++ CEvent id :: w ++ rest -> no_cevent id w ->
+  count_occ_b (is_ok_out id) (evt_outs (final (init n) pre) id w) = if all_replied n id w then 1%nat else 0%nat.
+Proof.
+  intros Hn Ht [Hno _] Et Hnc. subst t. destruct (trace_ok_split _ _ _ _ _ Ht) as [H1 H2].
+  apply (ok_exactly_one n); auto using ge2_ge1, reach_ok.
+  apply idle_ev_slot; auto using ge2_ge1. eapply Hno. reflexivity.
+Qed.
+
+Theorem ok_verdict_reach n t pre id w1 x w2 rest r :
+  (2 <= n)%nat -> trace_ok n t -> no_overlap n t ->
+  t = pre ++ CEvent id :: (w1 ++ x :: w2) ++ rest -> no_cevent id (w1 ++ x :: w2) ->
+  nth_error (evt_outs (final (init n) pre) id (w1 ++ x :: w2)) (length w1) = Some (Some (SOk r)) ->
+  ok_id r = id ->
+  all_replied n id w1 = false /\
+  exists replies, ok_replies n id (w1 ++ [x]) = List.map Some replies /\ length replies = n /\
+                  ok_verdict_spec id replies r.
+Proof.
+  intros Hn Ht [Hno _] Et Hnc Hnth Hid. subst t. destruct (trace_ok_split _ _ _ _ _ Ht) as [H1 H2].
+  apply (ok_verdict n (final (init n) pre) id w1 x w2 r); auto using ge2_ge1, reach_ok.
+  apply idle_ev_slot; auto using ge2_ge1. eapply Hno. reflexivity.
+Qed.
+
+Theorem count_exactly_one_reach n pre sub w :
+  (2 <= n)%nat -> trace_ok n (pre ++ CCount sub :: w) -> no_ccount sub w ->
+  count_occ_b (is_count_out sub) (cnt_outs (final (init n) pre) sub w) = if all_counted n sub w then 1%nat else 0%nat.
+Proof.
+  intros Hn Ht Hnc. destruct (trace_ok_window _ _ _ _ Ht) as [H1 [_ H2]].
+  apply (count_exactly_one n); auto using ge2_ge1, reach_ok.
+Qed.
+
+Theorem count_is_max_reach n pre sub w1 x w2 r :
+  (2 <= n)%nat -> trace_ok n (pre ++ CCount sub :: w1 ++ x :: w2) -> no_ccount sub (w1 ++ x :: w2) ->
+  nth_error (cnt_outs (final (init n) pre) sub (w1 ++ x :: w2)) (length w1) = Some (Some (SCount r)) ->
+  c_sub r = sub ->
+  all_counted n sub w1 = false /\
+  exists replies, cnt_replies n sub (w1 ++ [x]) = List.map Some replies /\ length replies = n /\
+                  count_max_spec sub replies r.
+Proof.
+  intros Hn Ht Hnc Hnth Hid. destruct (trace_ok_window _ _ _ _ Ht) as [H1 [_ H2]].
+  apply (count_is_max n (final (init n) pre) sub w1 x w2 r); auto using ge2_ge1, reach_ok.
+Qed.
+
+(** an aggregated reply carries the id of the reply that completed it *)
+Theorem reply_id_preserved n s i m o :
+  state_ok n s -> (i < n)%nat ->
+  (snd (merge_step s (Child i (SOk m))) = Some o -> exists r, o = SOk r /\ ok_id r = ok_id m) /\
+  (forall c, snd (merge_step s (Child i (SCount c))) = Some o -> exists r, o = SCount r /\ c_sub r = c_sub c).
+Proof.
+  intros [Hd [Hr [Ho Hc]]] Hi. unfold merge_step. rewrite Hd. split.
+  - destruct (send_ok_spec n s i m Ho Hi) as [o' [E _]]. rewrite E. cbn [snd]. unfold out_ok.
+    destruct (snd (w_put _ i m)) as [l'|] eqn:Ew; [|discriminate].
+    destruct (ok_merge l') as [r|] eqn:Em; [|discriminate]. cbn. intro H. inversion H; subst o.
+    exists r. split; [reflexivity|]. apply (ok_merge_key (ok_id m) l' r Em). intros a Ha.
+    destruct (w_put_full_In _ _ _ _ _ Ew Ha) as [->|Hin]; [reflexivity|].
+    destruct (assoc (ok_id m) (os_s (st_os s))) as [l|] eqn:Ea; [|destruct Hin].
+    apply (proj2 (proj2 Ho _ _ Ea)). exact Hin.
+  - intro c. destruct (send_count_spec n s i c Hc Hi) as [c' [E _]]. rewrite E. cbn [snd]. unfold out_cnt.
+    destruct (snd (w_put _ i c)) as [l'|] eqn:Ew; [|discriminate].
+    destruct (cnt_merge l') as [r|] eqn:Em; [|discriminate]. cbn. intro H. inversion H; subst o.
+    exists r. split; [reflexivity|]. apply (cnt_merge_key (c_sub c) l' r Em). intros a Ha.
+    destruct (w_put_full_In _ _ _ _ _ Ew Ha) as [->|Hin]; [reflexivity|].
+    destruct (assoc (c_sub c) (cs_counts (st_cs s))) as [l|] eqn:Ea; [|destruct Hin].
+    apply (proj2 (proj2 Hc _ _ Ea)). exact Hin.
+Qed.
+
+(* ------------------------------------------------------------------ *)
+(** * 13. Without the guard the statement is false (finding K1) *)
+
+Definition k1_id : str := [120]%N.
+Definition k1_a1 : okm := mkOk k1_id true [] [].
+Definition k1_a2 : okm := mkOk k1_id false [98; 108; 111; 99; 107; 101; 100; 58; 32]%N [110; 111]%N.
+Definition k1_b1 : okm := mkOk k1_id true [] [].
+Definition k1_b2 : okm := mkOk k1_id true [] [].
+
+(** two EVENTs with one id in flight; child 0 answers both, then child 1
+    answers both (replies a1 a2 b1 b2) *)
+Definition k1_trace : list input :=
+  [CEvent k1_id; CEvent k1_id;
+   Child 0 (SOk k1_a1); Child 0 (SOk k1_a2); Child 1 (SOk k1_b1); Child 1 (SOk k1_b2)].
+
+Definition k1_sub : str := [99]%N.
+Definition k1_trace_count : list input :=
+  [CCount k1_sub; CCount k1_sub;
+   Child 0 (SCount (mkCnt k1_sub 1 None)); Child 0 (SCount (mkCnt k1_sub 2 None));
+   Child 1 (SCount (mkCnt k1_sub 3 None)); Child 1 (SCount (mkCnt k1_sub 4 None))].
+
+Definition replies_of_child_ev (id : str) (i : nat) (t : list input) : nat :=
+  count_occ_b (fun x => match x with Child j (SOk m) => Nat.eqb j i && str_eqb (ok_id m) id | _ => false end) t.
+Definition replies_of_child_cnt (sub : str) (i : nat) (t : list input) : nat :=
+  count_occ_b (fun x => match x with Child j (SCount m) => Nat.eqb j i && str_eqb (c_sub m) sub | _ => false end) t.
+
+Lemma k1_trace_ok : trace_ok 2 k1_trace.
+Proof. unfold trace_ok, k1_trace. repeat constructor. Qed.
+
+Lemma k1_trace_count_ok : trace_ok 2 k1_trace_count.
+Proof. unfold trace_ok, k1_trace_count. repeat constructor. Qed.
+
+(** two submissions, every child answers each of them, one OK comes out — and
+    it is rejecting although both children accepted the first submission and
+    only child 0 rejected the second: the verdict mixes a2 with b1 *)
+Theorem ok_exactly_one_refuted :
+  exists t id, trace_ok 2 t /\
+    count_occ_b (is_cevent_of id) t = 2%nat /\
+    replies_of_child_ev id 0 t = 2%nat /\ replies_of_child_ev id 1 t = 2%nat /\
+    count_occ_b (is_ok_out id) (outs (init 2) t) = 1%nat /\
+    outs (init 2) t = [None; None; None; None;
+                       Some (SOk (mkOk id false [] (ok_message k1_a2))); None].
+Proof.
+  exists k1_trace, k1_id. split; [exact k1_trace_ok|]. vm_compute. repeat split; reflexivity.
+Qed.
+
+Theorem count_exactly_one_refuted :
+  exists t sub, trace_ok 2 t /\
+    count_occ_b (is_ccount_of sub) t = 2%nat /\
+    replies_of_child_cnt sub 0 t = 2%nat /\ replies_of_child_cnt sub 1 t = 2%nat /\
+    count_occ_b (is_count_out sub) (outs (init 2) t) = 1%nat.
+Proof.
+  exists k1_trace_count, k1_sub. split; [exact k1_trace_count_ok|]. vm_compute. repeat split; reflexivity.
+Qed.
+
+(** the guard excludes exactly such histories *)
+Theorem k1_trace_overlaps : ~ no_overlap 2 k1_trace.
+Proof.
+  intros [H _]. specialize (H [CEvent k1_id] k1_id
+    [Child 0 (SOk k1_a1); Child 0 (SOk k1_a2); Child 1 (SOk k1_b1); Child 1 (SOk k1_b2)] eq_refl).
+  inversion H as [pre Hnc | pre w Hi Hnc Ha E].
+  - specialize (Hnc (CEvent k1_id) (or_introl eq_refl)). vm_compute in Hnc. discriminate.
+  - destruct pre as [|p pre]; cbn in E.
+    + inversion E; subst. vm_compute in Ha. discriminate.
+    + inversion E as [[E1 E2]]. destruct pre; discriminate.
 Qed.
